@@ -96,6 +96,37 @@ fn makers(pnames: &[String]) -> Vec<Maker> {
         let mut f = goals::no_events();
         Box::new(move |s: &McState| f(s).is_some())
     }));
+    // the combinators, with sub-predicates that fire in no particular order along an exploration
+    for k in [1u64, 2, 3] {
+        v.push(Box::new(move || {
+            let mut f = goals::any_goal(vec![goals::depth_reached(k + 1), goals::no_events()]);
+            Box::new(move |s: &McState| f(s).is_some())
+        }));
+        v.push(Box::new(move || {
+            let mut f = goals::any_goal(vec![goals::no_events(), goals::depth_reached(k)]);
+            Box::new(move |s: &McState| f(s).is_some())
+        }));
+        v.push(Box::new(move || {
+            let mut f = goals::all_goals(vec![goals::depth_reached(k), goals::no_events()]);
+            Box::new(move |s: &McState| f(s).is_some())
+        }));
+        v.push(Box::new(move || {
+            let mut f = prunes::any_prune(vec![prunes::state_depth(k + 1), prunes::sent_messages_limit(k)]);
+            Box::new(move |s: &McState| f(s).is_some())
+        }));
+        v.push(Box::new(move || {
+            let mut f = invariants::all_invariants(vec![invariants::state_depth(k + 1), invariants::state_depth_current_run(k + 2)]);
+            Box::new(move |s: &McState| f(s).is_err())
+        }));
+        v.push(Box::new(move || {
+            let mut f = collects::any_collect(vec![collects::state_depth(k + 1), collects::no_events()]);
+            Box::new(move |s: &McState| f(s))
+        }));
+        v.push(Box::new(move || {
+            let mut f = collects::all_collects(vec![collects::state_depth(k), collects::no_events()]);
+            Box::new(move |s: &McState| f(s))
+        }));
+    }
     v
 }
 
